@@ -38,9 +38,10 @@ VARIABLES F,        \* the forest: F[n] = parent doc number of n, 0 for a root
           cur,      \* currs
           inited, queue, pc, mk,
           adv,      \* pending Advance target while its Next() loop runs, else 0
-          last, plast, tgt, ret, ncalls
+          last, plast, tgt, ret, ncalls,
+          J         \* Nested!JoinSet of the chosen input (constant along a behaviour)
 
-vars == <<F, strs, d0, jd, cur, inited, queue, pc, mk, adv, last, plast, tgt, ret, ncalls>>
+vars == <<F, strs, d0, jd, cur, inited, queue, pc, mk, adv, last, plast, tgt, ret, ncalls, J>>
 
 N == Len(F)
 S == [n \in 1..N |-> [par |-> F[n]]]
@@ -67,8 +68,6 @@ AdvOf(s, to) == LET r == {n \in s : n >= to} IN IF r = {} THEN 0 ELSE MinOf(r)
 QueueIds == {n \in DOMAIN queue : queue[n] > 0}
 EmptyQueue == [n \in 1..N |-> 0]
 
-J == JoinSet(S, strs, d0)
-
 Init ==
   /\ \E n \in 1..MaxN : F \in Forests(n)
   /\ d0 \in 0..2
@@ -79,6 +78,7 @@ Init ==
   /\ queue = [n \in 1..Len(F) |-> 0]
   /\ pc = "idle" /\ mk = 0 /\ adv = 0
   /\ last = 0 /\ plast = 0 /\ tgt = 0 /\ ret = 0 /\ ncalls = 0
+  /\ J = JoinSet([n \in 1..Len(F) |-> [par |-> F[n]]], strs, d0)
 
 \* a call returns r (0 = nil); while an Advance is looping, matches before
 \* its target are recycled and Next() runs again
@@ -104,7 +104,7 @@ InitJd(c) == LET ds == {DepthOf(S, c[i]) : i \in 1..NS} IN
 CallNext ==
   /\ pc = "idle"
   /\ ncalls' = ncalls + 1 /\ tgt' = 0
-  /\ UNCHANGED <<F, strs, d0, mk>>
+  /\ UNCHANGED <<F, strs, d0, mk, J>>
   /\ IF ~inited
      THEN LET c == InitCur IN
           IF \E i \in 1..NS : c[i] = 0
@@ -115,14 +115,14 @@ CallNext ==
 
 StartNext ==
   /\ pc = "next"
-  /\ UNCHANGED <<F, strs, d0, jd, cur, inited, mk, tgt, ncalls>>
+  /\ UNCHANGED <<F, strs, d0, jd, cur, inited, mk, tgt, ncalls, J>>
   /\ IF QueueIds # {} THEN DequeueThen
      ELSE pc' = "align" /\ UNCHANGED <<queue, adv, last, plast, ret>>
 
 \* one pass of OUTER
 Align ==
   /\ pc = "align"
-  /\ UNCHANGED <<F, strs, d0, jd, inited, tgt, ncalls>>
+  /\ UNCHANGED <<F, strs, d0, jd, inited, tgt, ncalls, J>>
   /\ IF \E i \in 1..NS : cur[i] = 0
      THEN UNCHANGED <<cur, mk>> /\ Deliver(0, queue)
      ELSE LET maxKey == MaxOf({Key(cur[i]) : i \in 1..NS})
@@ -145,7 +145,7 @@ Run(s, c) ==
 
 Buffer ==
   /\ pc = "buffer"
-  /\ UNCHANGED <<F, strs, d0, jd, inited, mk, tgt, ncalls>>
+  /\ UNCHANGED <<F, strs, d0, jd, inited, mk, tgt, ncalls, J>>
   /\ LET runs == [i \in 1..NS |-> Run(strs[i], cur[i])]
          q2 == [n \in 1..N |-> queue[n] + Cardinality({i \in 1..NS : n \in runs[i].t})]
          m == MinOf({n \in 1..N : q2[n] > 0})
@@ -160,7 +160,7 @@ AdvTargets ==
 CallAdvance(id) ==
   /\ pc = "idle"
   /\ ncalls' = ncalls + 1 /\ tgt' = id
-  /\ UNCHANGED <<F, strs, d0, mk>>
+  /\ UNCHANGED <<F, strs, d0, mk, J>>
   /\ LET c0 == IF inited THEN cur ELSE InitCur
          j0 == IF inited THEN jd ELSE InitJd(c0)
      IN
